@@ -88,6 +88,9 @@ fn start_db(
         disk_ops::Oplog::clean_op_log_metadata_files();
         std::collections::HashMap::new()
     };
+    // After the clean up the (empty) op-log and the (empty) keys map agree again, the next new
+    // key has to invalidate the flag on disk like on a fresh node
+    let is_oplog_valid = true;
 
     let dbs = nundb::db_ops::create_init_dbs(
         user.to_string(),
